@@ -171,68 +171,7 @@ func runSelfTest(prop string, ps *PropSpec, repo string, seed int, p *Prog) map[
 		if strings.HasPrefix(short, "lemma:") {
 			continue
 		}
-		fn := p.Funcs[fullName(p, short)]
-		if fn == nil || fn.Syntax() == nil {
-			continue
-		}
-		fset := fn.Prog.Fset
-		node := fn.Syntax()
-		file := fset.Position(node.Pos()).Filename
-		rel, err := filepath.Rel(repo, file)
-		if err != nil || strings.HasPrefix(rel, "..") {
-			continue
-		}
-		off := func(pos token.Pos) int { return fset.Position(pos).Offset }
-		add := func(start, end int, text, desc string) {
-			cands = append(cands, &mutant{File: rel, Start: start, End: end, New: text, Desc: fmt.Sprintf("%s:%d %s", rel, fset.Position(node.Pos()).Line, desc), Fn: short})
-		}
-		swap := map[token.Token]string{token.EQL: "!=", token.NEQ: "==", token.LSS: "<=", token.LEQ: "<", token.GTR: ">=", token.GEQ: ">", token.LAND: "||", token.LOR: "&&", token.ADD: "-", token.SUB: "+"}
-		var body ast.Node
-		switch n := node.(type) {
-		case *ast.FuncDecl:
-			body = n.Body
-		case *ast.FuncLit:
-			body = n.Body
-		}
-		if body == nil {
-			continue
-		}
-		depth := 0
-		ast.Inspect(body, func(n ast.Node) bool {
-			switch x := n.(type) {
-			case *ast.FuncLit:
-				// nested closures are functions of their own
-				if depth > 0 || x != node {
-					return false
-				}
-				depth++
-			case *ast.BinaryExpr:
-				if nw, ok := swap[x.Op]; ok {
-					line := fset.Position(x.OpPos).Line
-					add(off(x.OpPos), off(x.OpPos)+len(x.Op.String()), nw, fmt.Sprintf("line %d: %s -> %s", line, x.Op, nw))
-				}
-			case *ast.UnaryExpr:
-				if x.Op == token.NOT {
-					add(off(x.OpPos), off(x.OpPos)+1, "", fmt.Sprintf("line %d: drop !", fset.Position(x.OpPos).Line))
-				}
-			case *ast.IfStmt:
-				if x.Cond != nil {
-					add(off(x.Cond.Pos()), off(x.Cond.Pos()), "!(", fmt.Sprintf("line %d: negate the condition", fset.Position(x.Cond.Pos()).Line))
-					cands[len(cands)-1].End = -off(x.Cond.End()) // marker: also insert ")" at the end
-				}
-			case *ast.ExprStmt:
-				if _, ok := x.X.(*ast.CallExpr); ok {
-					add(off(x.Pos()), off(x.End()), "", fmt.Sprintf("line %d: drop the call statement", fset.Position(x.Pos()).Line))
-				}
-			case *ast.BasicLit:
-				if x.Kind == token.INT {
-					if v, err := strconv.ParseInt(x.Value, 0, 64); err == nil && v >= 0 && v < 1000 {
-						add(off(x.Pos()), off(x.End()), strconv.FormatInt(v+1, 10), fmt.Sprintf("line %d: %s -> %d", fset.Position(x.Pos()).Line, x.Value, v+1))
-					}
-				}
-			}
-			return true
-		})
+		cands = append(cands, mutantCandidates(p, short, repo)...)
 	}
 	r := rand.New(rand.NewSource(int64(seed) + 7))
 	r.Shuffle(len(cands), func(i, j int) { cands[i], cands[j] = cands[j], cands[i] })
@@ -318,4 +257,74 @@ func runSelfTest(prop string, ps *PropSpec, repo string, seed int, p *Prog) map[
 	rep["mutation_operators"] = "comparison and boolean/arithmetic operator swap, dropped negation, negated if-condition, dropped call statement, integer literal + 1; sampled with VERIF_SEED from the functions listed for the property"
 	rep["wall_s"] = time.Since(t0).Seconds()
 	return rep
+}
+
+// mutantCandidates lists the small syntactic mutants of one function under contract.
+func mutantCandidates(p *Prog, short, repo string) []*mutant {
+	var cands []*mutant
+	{
+		fn := p.Funcs[fullName(p, short)]
+		if fn == nil || fn.Syntax() == nil {
+			return nil
+		}
+		fset := fn.Prog.Fset
+		node := fn.Syntax()
+		file := fset.Position(node.Pos()).Filename
+		rel, err := filepath.Rel(repo, file)
+		if err != nil || strings.HasPrefix(rel, "..") {
+			return nil
+		}
+		off := func(pos token.Pos) int { return fset.Position(pos).Offset }
+		add := func(start, end int, text, desc string) {
+			cands = append(cands, &mutant{File: rel, Start: start, End: end, New: text, Desc: fmt.Sprintf("%s:%d %s", rel, fset.Position(node.Pos()).Line, desc), Fn: short})
+		}
+		swap := map[token.Token]string{token.EQL: "!=", token.NEQ: "==", token.LSS: "<=", token.LEQ: "<", token.GTR: ">=", token.GEQ: ">", token.LAND: "||", token.LOR: "&&", token.ADD: "-", token.SUB: "+"}
+		var body ast.Node
+		switch n := node.(type) {
+		case *ast.FuncDecl:
+			body = n.Body
+		case *ast.FuncLit:
+			body = n.Body
+		}
+		if body == nil {
+			return nil
+		}
+		depth := 0
+		ast.Inspect(body, func(n ast.Node) bool {
+			switch x := n.(type) {
+			case *ast.FuncLit:
+				// nested closures are functions of their own
+				if depth > 0 || x != node {
+					return false
+				}
+				depth++
+			case *ast.BinaryExpr:
+				if nw, ok := swap[x.Op]; ok {
+					line := fset.Position(x.OpPos).Line
+					add(off(x.OpPos), off(x.OpPos)+len(x.Op.String()), nw, fmt.Sprintf("line %d: %s -> %s", line, x.Op, nw))
+				}
+			case *ast.UnaryExpr:
+				if x.Op == token.NOT {
+					add(off(x.OpPos), off(x.OpPos)+1, "", fmt.Sprintf("line %d: drop !", fset.Position(x.OpPos).Line))
+				}
+			case *ast.IfStmt:
+				if x.Cond != nil {
+					add(off(x.Cond.Pos()), off(x.Cond.Pos()), "!(", fmt.Sprintf("line %d: negate the condition", fset.Position(x.Cond.Pos()).Line))
+					cands[len(cands)-1].End = -off(x.Cond.End()) // marker: also insert ")" at the end
+				}
+			case *ast.ExprStmt:
+				if _, ok := x.X.(*ast.CallExpr); ok {
+					add(off(x.Pos()), off(x.End()), "", fmt.Sprintf("line %d: drop the call statement", fset.Position(x.Pos()).Line))
+				}
+			case *ast.BasicLit:
+				if x.Kind == token.INT {
+					if v, err := strconv.ParseInt(x.Value, 0, 64); err == nil && v >= 0 && v < 1000 {
+						add(off(x.Pos()), off(x.End()), strconv.FormatInt(v+1, 10), fmt.Sprintf("line %d: %s -> %d", fset.Position(x.Pos()).Line, x.Value, v+1))
+					}
+				}
+			}
+			return true
+		})
+	}
+	return cands
 }
